@@ -753,6 +753,10 @@ func canonFloatIssue(lit string, x float64) (key, reason string) {
 			if cd.Cmp(dist) < 0 {
 				return "float-not-closest", fmt.Sprintf("literal %s is not the %d-digit decimal closest to %v", lit, k, ax)
 			}
+			// exact tie between two k-digit decimals: the even one is canonical
+			if cd.Cmp(dist) == 0 && c.Cmp(r) != 0 && new(big.Int).Add(lo, big.NewInt(int64(d))).Bit(0) == 0 {
+				return "float-tie-not-even", fmt.Sprintf("literal %s and %s are equally close to %v; the canonical choice is the even one", lit, c.FloatString(20), ax)
+			}
 		}
 	}
 	// (3) layout
